@@ -78,7 +78,37 @@ void genC17(uint64_t seed, int tier, Scenario& sc) {
         else if (k < 18) lines.push_back("isready");
         else if (k < 33) lines.push_back(genSetOption(r, true));
         else if (k < 37) lines.push_back("ucinewgame");
-        else if (k < 65) { pg::anyPosition(r, gp); lines.push_back(gp.positionCmd); }
+        else if (k < 65) {
+            pg::anyPosition(r, gp);
+            std::string cmd = gp.positionCmd;
+            size_t mp = cmd.find(" moves ");
+            if (mp != std::string::npos && r.chance(0.15)) {
+                // a move list that belongs to another position: most of its moves are illegal here
+                pg::GenPos other;
+                pg::anyPosition(r, other);
+                size_t op = other.positionCmd.find(" moves ");
+                cmd = (op == std::string::npos ? other.positionCmd : other.positionCmd.substr(0, op)) + cmd.substr(mp);
+                try {
+                    // the engine plays the legal prefix: keep the generator's idea of the root in step with it
+                    std::vector<std::string> t = vf::splitWs(cmd);
+                    Position p = TextIO::readFEN(TextIO::startPosFEN);
+                    size_t i = 1;
+                    if (t.size() > 1 && t[1] == "fen") { std::string fen; for (i = 2; i < t.size() && t[i] != "moves"; i++) fen += t[i] + " "; p = TextIO::readFEN(fen); }
+                    else i = 2;
+                    UndoInfo ui;
+                    for (i++; i < t.size(); i++) {
+                        std::vector<Move> lm;
+                        uci::legalMoves(p, lm);
+                        Move m = TextIO::uciStringToMove(t[i]);
+                        if (m.isEmpty() || !uci::containsMove(lm, m)) break;
+                        p.makeMove(m, ui);
+                    }
+                    pg::finish(gp, p);
+                    gp.positionCmd = cmd;
+                } catch (const ChessParseError&) { cmd = gp.positionCmd; }
+            }
+            lines.push_back(cmd);
+        }
         else if (k < 90) { bool nr; lines.push_back(genGo(r, gp, cost, go, nr)); lines.push_back("stop"); }
         else if (k < 95) lines.push_back("stop");
         else lines.push_back("ponderhit");
